@@ -174,6 +174,7 @@ def via_option_string(S):
 
 
 DOCTITLE = [False]  # docutils' default is True; set per case
+REPORT = [2]  # docutils' report_level (1 = also INFO messages), set per case
 
 
 def run_docutils(text, kw, S, via="list"):
@@ -181,7 +182,7 @@ def run_docutils(text, kw, S, via="list"):
     sw = list(S)
     if via == "string" and S and all(x and "," not in x and x == x.strip() for x in S):
         sw = via_option_string(S)
-    doc, w = drive.parse(text, source_path=os.path.join(TMP, "doc.md"), doctitle_xform=DOCTITLE[0], myst_suppress_warnings=sw, **kw)
+    doc, w = drive.parse(text, source_path=os.path.join(TMP, "doc.md"), doctitle_xform=DOCTITLE[0], myst_suppress_warnings=sw, report_level=REPORT[0], **kw)
     events = list(WL.events)
     return doc, w, events
 
@@ -210,6 +211,7 @@ def eval_docutils(ctx, case):
     S = case["S"]
     detail = {"text": text, "S": S}
     DOCTITLE[0] = bool(case.get("doctitle"))
+    REPORT[0] = case.get("report_level", 2)
     # (the generated document has exactly one top-level section, which docutils promotes to the document title when doctitle_xform is on)
     try:
         d0, w0, ev0 = run_docutils(text, kw, [])
@@ -459,7 +461,9 @@ def run_shard(ctx):
         if i % 3 == 1:
             case["via"] = "string"  # the list as the command line / docutils.conf delivers it
         if i % 5 == 2 and not case.get("front"):
-            case["doctitle"] = True  # docutils' default: a lone section becomes the document title
+            case["doctitle"] = True
+        if i % 7 == 3:
+            case["report_level"] = 1  # verbose: what is suppressed must not come back at a lower level  # docutils' default: a lone section becomes the document title
         nt = eval_case(ctx, case)
         ctx.case(repr(case), bool(nt))
         if i < 2:
